@@ -332,7 +332,7 @@ class Gen:
             if r.random() < 0.2:
                 op['cache'] = False; self.tags.add('buffer-cache-off')     # every keyword option of the constructor is exercised
             self.emit(op)
-            s.bufs.append({'freed': False, 'stale': False})
+            s.bufs.append({'freed': False, 'stale': False, 'frames': frames, 'ch': ch})
         elif k == 'b_new_noalloc':
             self.emit({'op': 'b_new', 'frames': frames, 'channels': ch, 'compl': None, 'alloc': False})
             s.bufs.append({'freed': False, 'stale': False})
@@ -362,6 +362,32 @@ class Gen:
             self.emit({'op': k, 'path': r.choice(PATHS), 'start': r.choice([0, 5]), 'size': r.choice([32768, 65536]),
                        'channels': ch, 'compl': self.compl()})
             s.bufs.append({'freed': False, 'stale': False})
+
+    def stream_values(self, n):
+        r = self.r
+        a, m = r.randint(0, 63), r.choice([3, 7, 64])
+        return [vf(Fraction((a + k) % m, 4)) for k in range(n)]
+
+    def op_buf_stream(self):
+        # multi-packet operations: lengths around the packet sizes (1626 values per /b_setn, 1633 per /b_getn)
+        r, s = self.r, self.s
+        n = r.choice([1, 2, 3, 3, 5, 1625, 1626, 1627, 2000, 3252, 3253, 4000])
+        k = r.choice(['b_send_list', 'b_new_send_list', 'b_get_to_list', 'b_get_to_list'])
+        known = [i for i in s.live_bufs() if s.bufs[i].get('frames') is not None]
+        if k != 'b_new_send_list' and not known:
+            k = 'b_new_send_list'
+        if k == 'b_new_send_list':
+            ch = r.choice([1, 1, 2, 3])
+            self.emit({'op': k, 'values': self.stream_values(n), 'channels': ch})
+            s.bufs.append({'freed': False, 'stale': False, 'frames': -(-n // ch), 'ch': ch})
+        elif k == 'b_send_list':
+            b = r.choice(known)
+            self.emit({'op': k, 'b': b, 'values': self.stream_values(n), 'start': r.choice([0, 0, 1, 7])})
+        else:
+            b = r.choice(known)
+            cnt = r.choice([None, None, 1, 1632, 1633, 1634, 3266, 3267, 4000])
+            self.emit({'op': k, 'b': b, 'index': r.choice([0, 0, 5, 1633]), 'count': cnt})
+        self.tags.add('streaming')
 
     def op_buf_cmd(self):
         r, s = self.r, self.s
@@ -640,6 +666,9 @@ class Gen:
                 self.op_misuse()
                 continue
             w = r.random()
+            if s.depth == 0 and not self.sync and r.random() < 0.012:
+                self.op_buf_stream()
+                continue
             if w < 0.16:
                 self.op_synth()
             elif w < 0.22:
